@@ -16,7 +16,7 @@ let run inp obs : string option * string option =
     let spec = if Frames.obs_ok c limit l (bytes_of_hex unread) o then None
       else Some (Printf.sprintf "ReadNext result (n=%s err=%s) is not what the pure parser says for this stream" n ecls) in
     (spec, Model17.call inp obs)
-  | ["C17S"; c; limit; data; _sched; _e], [msgs; fin] ->
+  | "C17S" :: c :: limit :: data :: _sched :: _e :: _, [msgs; fin] ->
     let c = codec_of c and limit = nat_of_int (int_of_string limit) in
     let l = bytes_of_hex data in
     let (ms, e) = Frames.parse_all (nat_of_int (Stdlib.List.length l + 2)) c limit l in
